@@ -337,7 +337,15 @@ Definition disp_step (lost : bool) (i : nat) (s : state) : state :=
               if lost then s1 else add_log s1 (LCallback (d_psn d))
           | Some hs => run_hs i (mkD (d_psn d) (d_ev d) (d_kwq d) (d_kw d) hs hs DNew) hs s
           end
-      | DReady _ => run_hs i d (d_rem d) s
+      | DReady q =>
+          (* `while queue.waiter:` (fixes/C02-dispatcher-rechecks-wait.patch): the queue was locked again between the
+             clear and this wake-up (possible for a queue object shared by several dispatches): new Event, sleep again *)
+          if waiter_of q s then
+            let e := nev s in
+            let o := match nth_error (heap s) q with Some o => o | None => mkQ true None end in
+            set_disp i (set_st d (DSleep q e))
+                     (upd_nev (upd_heap s (set_nth q (mkQ (q_waiter o) (Some e)) (heap s))) (S e))
+          else run_hs i d (d_rem d) s
       | _ => s
       end
   end.
